@@ -153,6 +153,35 @@ func c06Eval(c c06Case) (ok bool, sig, detail string) {
 		if !dok {
 			return false, "malformed-location", what + " is not a well-formed location"
 		}
+		// the result of the reduction must itself print to a fixed point of parse-then-print
+		var p1, p2 string
+		if pp, msg := engine.Safely(func() {
+			p1 = res.String()
+			if l2, e2 := gts.AsLocation(p1); e2 == nil {
+				p2 = l2.String()
+			} else {
+				p2 = "<rejected: " + e2.Error() + ">"
+			}
+		}); pp {
+			return false, "panic", what + ": print/parse panics: " + msg
+		}
+		if p1 != p2 {
+			// known: a site that is replaced by the following point/range is not re-checked against the element before it,
+			// so Join(x, site, x) leaves the reducible list (x, x).  Classified only when a between-site is among the parts
+			// and the re-parsed value denotes the same de-duplicated bases.
+			hasSite := false
+			for _, p := range parts {
+				if hasBetween(p) {
+					hasSite = true
+				}
+			}
+			if l2, e2 := gts.AsLocation(p1); hasSite && e2 == nil {
+				if d2, ok2 := refmodel.Den(l2); ok2 && dok && dedupBases(d2).Equal(dedupBases(obs)) {
+					return false, "join-site-replacement-leaves-reducible", what + fmt.Sprintf(" prints as %q, which parses and prints as %q", p1, p2)
+				}
+			}
+			return false, "reduction-not-normal", what + fmt.Sprintf(" prints as %q, which parses and prints as %q", p1, p2)
+		}
 		want, got := dedupBases(all), dedupBases(obs)
 		if !want.Equal(got) {
 			if dropRangedThenPoint(all, obs.Bases()) || dropRangedThenPointDedup(all, got) {
@@ -253,6 +282,30 @@ func dropRangedThenPointDedup(all, gotDedup refmodel.Atoms) bool {
 	return false
 }
 
+func locDepth(loc gts.Location) int {
+	switch v := loc.(type) {
+	case gts.Joined:
+		d := 0
+		for _, l := range v {
+			if x := locDepth(l); x > d {
+				d = x
+			}
+		}
+		return d + 1
+	case gts.Ordered:
+		d := 0
+		for _, l := range v {
+			if x := locDepth(l); x > d {
+				d = x
+			}
+		}
+		return d + 1
+	case gts.Complemented:
+		return locDepth(v.Location) + 1
+	}
+	return 1
+}
+
 func init() {
 	register(&Check{ID: "C06", Level: "model_checking", Quick: 120 * time.Second, Thor: 30 * time.Minute,
 		Run: func(r *engine.Run) bool {
@@ -282,6 +335,14 @@ func init() {
 				vals = append(vals, locdom.All(4, locdom.Opts{MaxParts: 2, Sites: true, Overlap: true, InnerFlags: true})...)
 			}
 			r.States.Add(int64(len(vals)))
+			// nested values first and sequentially: a printer that is only wrong (or only racy) for nesting
+			// then fails deterministically here before the parallel sweep can drown it in unrepeatable cases
+			for _, v := range vals {
+				if locDepth(v) >= 3 {
+					c := c06Case{Kind: "value", Loc: locdom.Encode(v)}
+					eval(c, true, len(c.Loc))
+				}
+			}
 			done := r.ParallelFor(len(vals), func(idx int) {
 				c := c06Case{Kind: "value", Loc: locdom.Encode(vals[idx])}
 				r.Traces.Add(1)
@@ -348,6 +409,10 @@ func init() {
 				}
 				for _, c := range contig {
 					parts = append(parts, gts.Complemented{Location: c})
+				}
+				// multi-part parts under complement (Push re-joins complement(...) pairs)
+				for _, j := range []gts.Location{gts.Joined{gts.Range(0, 1), gts.Range(2, 3)}, gts.Joined{gts.Point(0), gts.Range(2, 4)}, gts.Ordered{gts.Point(1), gts.Point(3)}} {
+					parts = append(parts, gts.Complemented{Location: j}, j)
 				}
 				P := len(parts)
 				maxLen := 3
